@@ -62,13 +62,14 @@ func (c *FCtx) bodyEnv(st *State, pos token.Pos) *CEnv {
 		}
 		if _, isVar := obj.(*types.Var); !isVar {
 			// renamed since the contract was written: resolve through the position recorded in the `names` clause
-			if con := c.eng.cs.Funcs[fi.Key]; namesUsable(fi, con) {
+			if con := c.eng.cs.Funcs[fi.Key]; alignNames(fi, con) != nil {
+				al := alignNames(fi, con)
 				var pick *types.Var
 				for k, rec := range con.Names {
-					if rec != name {
+					if rec != name || al[k] < 0 {
 						continue
 					}
-					v := fi.DeclOrder[k]
+					v := fi.DeclOrder[al[k]]
 					if v.Name() == name {
 						continue
 					}
@@ -181,9 +182,9 @@ func (c *FCtx) run(alias [2]string) {
 				}
 				obj := c.info.Defs[n]
 				name := n.Name
-				if namesUsable(fi, con) && npos < con.NamesIn {
+				if recs := recordedSig(fi, con, false); recs != nil && npos < len(recs) {
 					// the contract's own name for this parameter (it may have been renamed in the source since)
-					if rec := con.Names[npos]; rec != name {
+					if rec := recs[npos]; rec != name {
 						c.params[name] = obj
 						name = rec
 					}
